@@ -583,6 +583,20 @@ def check_aggregates(repo: Repo, rep: Report, w: World) -> None:
                             if elems != [f"a{yy * W + xx}" for yy, xx in idx]:
                                 bad = f"{cls} {H}x{W} cell ({y},{x}): four_neighbors returns {elems}, not the elements at {idx} in that order"
                                 break
+                            # the caller owns what it got: editing the returned list and asking again (same cell, same board shape, also on
+                            # another array of that shape) gives the same answer as the first time
+                            if isinstance(r2, list):
+                                r2.append((y, x))
+                                if isinstance(r1.attrs.get("data"), list):
+                                    r1.attrs["data"].append(r1.attrs["data"][0] if r1.attrs["data"] else None)
+                                k3, r3 = _try(w, lambda: w.cw.method(A, "four_neighbor_indices")(*args))
+                                k4, r4 = _try(w, lambda: w.cw.method(A, "four_neighbors")(*args))
+                                again = [tuple(t) for t in r3] if k3 == "value" else k3
+                                elems4 = [e.attrs.get("leaf") if isinstance(e, Obj) else e for e in r4.attrs["data"]] if k4 == "value" else k4
+                                if again != idx or elems4 != elems:
+                                    bad = (f"{cls} {H}x{W} cell ({y},{x}) [{form}]: after the caller appended to the list it got from four_neighbor_indices, "
+                                           f"a second call gives {again} / elements {elems4} instead of {idx} / {elems} (the result object is shared between calls)")
+                                    break
                         if bad:
                             break
                     if bad:
